@@ -57,6 +57,7 @@ type batchScn struct {
 	postMenu []answer
 	prepErr  bool // prep fails (post must not be called)
 	anyExec  bool // use WithExecFuncAny
+	execVia  int  // which sibling route installs the exec function (viaBuilderR = default)
 	noPost   bool // no post function configured
 	// special behaviours
 	park    []int      // items that park (scheduler-visible) until a terminal failure has been handled
@@ -305,7 +306,32 @@ var errCustomCause = errors.New("custom-cancel-cause")
 func (b *BR) buildNode() (*flyt.BatchNodeBuilder, *flyt.SharedStore) {
 	sc := b.sc
 	h := b.h
-	nb := flyt.NewBatchNode().WithMaxRetries(sc.budget).WithBatchConcurrency(sc.c)
+	execR := func(ctx context.Context, it flyt.Result) (flyt.Result, error) {
+		var v any = it.Value()
+		if it.IsError() {
+			v = it.Error() // error items are identified by their error
+		}
+		a := h.cur.onExec(ctx, v, it.IsError())
+		if a.err != nil {
+			return flyt.Result{}, a.err
+		}
+		if e, ok := a.val.(errResultMarker); ok { // exec returns an error RESULT with nil error
+			return flyt.NewErrorResult(e.err), nil
+		}
+		return flyt.NewResult(a.val), nil
+	}
+	execA := func(ctx context.Context, v any) (any, error) {
+		a := h.cur.onExec(ctx, v, false)
+		return a.val, a.err
+	}
+	var ctorOpts []any
+	switch sc.execVia {
+	case viaOptionR:
+		ctorOpts = append(ctorOpts, flyt.WithExecFunc(execR))
+	case viaOptionAny:
+		ctorOpts = append(ctorOpts, flyt.WithExecFuncAny(execA))
+	}
+	nb := flyt.NewBatchNode(ctorOpts...).WithMaxRetries(sc.budget).WithBatchConcurrency(sc.c)
 	if sc.stop {
 		nb = nb.WithBatchErrorHandling(false)
 	}
@@ -361,26 +387,12 @@ func (b *BR) buildNode() (*flyt.BatchNodeBuilder, *flyt.SharedStore) {
 			return nil, nil
 		})
 	}
-	if sc.anyExec {
-		nb = nb.WithExecFuncAny(func(ctx context.Context, v any) (any, error) {
-			a := h.cur.onExec(ctx, v, false)
-			return a.val, a.err
-		})
-	} else {
-		nb = nb.WithExecFunc(func(ctx context.Context, it flyt.Result) (flyt.Result, error) {
-			var v any = it.Value()
-			if it.IsError() {
-				v = it.Error() // error items are identified by their error
-			}
-			a := h.cur.onExec(ctx, v, it.IsError())
-			if a.err != nil {
-				return flyt.Result{}, a.err
-			}
-			if e, ok := a.val.(errResultMarker); ok { // exec returns an error RESULT with nil error
-				return flyt.NewErrorResult(e.err), nil
-			}
-			return flyt.NewResult(a.val), nil
-		})
+	switch {
+	case sc.execVia == viaOptionR || sc.execVia == viaOptionAny:
+	case sc.anyExec || sc.execVia == viaBuilderAny:
+		nb = nb.WithExecFuncAny(execA)
+	default:
+		nb = nb.WithExecFunc(execR)
 	}
 	if sc.fb {
 		flyt.ZZSetFallback(nb, func(p any, err error) (any, error) {
@@ -449,6 +461,16 @@ func (b *BR) execute(ctx context.Context, nb *flyt.BatchNodeBuilder, store *flyt
 }
 
 type errResultMarker struct{ err error }
+
+// the four ways of giving a batch node its exec function
+const (
+	viaBuilderR = iota
+	viaBuilderAny
+	viaOptionR
+	viaOptionAny
+)
+
+var viaNames = []string{"builder.WithExecFunc", "builder.WithExecFuncAny", "option WithExecFunc", "option WithExecFuncAny"}
 
 var prepItemErr = func() []error {
 	var l []error
